@@ -5,6 +5,7 @@ mod gen;
 mod c02;
 mod c06;
 mod c07;
+mod c09;
 mod c11;
 mod c13;
 mod drive;
@@ -31,6 +32,7 @@ fn main() {
                 "C02" | "C05" => c02::run(&id, &tier),
                 "C06" => c06::run(&tier),
                 "C07" => c07::run(&tier),
+                "C09" => c09::run(&tier),
                 "C11" => c11::run(&tier),
                 "C12" => c12::run(&tier),
                 "C13" => c13::run(&tier),
@@ -49,6 +51,7 @@ fn main() {
                 "C02" | "C05" => c02::replay(detail, &id),
                 "C06" => c06::replay(detail),
                 "C07" => c07::replay(detail),
+                "C09" => c09::replay(detail),
                 "C11" => c11::replay(detail),
                 "C12" => c12::replay(detail),
                 "C13" => c13::replay(detail),
